@@ -37,6 +37,7 @@ func init() {
 			"distinct = distinct corrupted inputs (stream, start bit, pattern) plus distinct (header variant, stored CRC) pairs",
 		Assumptions: []string{"CRC-16 detects every burst of <=16 bits; the check demands only that *some* error is returned"},
 		Run:         runC04,
+		Sub:         func(args []string) { tzSub(args) },
 		QuickBudget: 200,
 		Replay: func(raw json.RawMessage) (string, error) {
 			var r c04Replay
@@ -83,6 +84,7 @@ func xorBurst(dst, src []byte, bit int, pat uint32, plen int) {
 }
 
 func runC04(w *vx.W) {
+	procsFamily(w, "C04", "integrity")
 	thorough := !w.Quick()
 	// ---- base files
 	oneRec := func(h fitmodel.Header, big bool) []byte { return activityFile(h, 1, big, 5) }
